@@ -64,3 +64,10 @@ MANIFEST = {
     "note": "Trusted: Lean kernel + 3 standard axioms; harness/driver/check.py glue. H20 (constraints sharing a new meta-variable made the match depend on the hash order) is repaired by ec1c602; the generated projects keep that rule class, so a regression shows as `c13 constraints=shared-var`.",
     "technique": "Lean 4 proof over hand-written executable model (DFS invariant, permutation induction, sorting uniqueness) + differential correspondence (hooked get_order with recorded hash order, rule loader, CombinedScan) + whole-process differential oracle on the real CLI",
 }
+
+# slice project: project discovery (sgconfig.yml search, --config), rule-file loading (ruleDirs / utilDirs walk) and the source of the rules of a scan (--rule / --inline-rules / project, --filter)
+ENTRY["lean_modules"] += ["AstGrepVerif.Props.Project"]
+ENTRY["theorems"] += ['AGV.Project.shuf_of_perm', 'AGV.Project.walk_perm', 'AGV.Project.loadList_perm', 'AGV.Project.order_irrelevant', 'AGV.Project.order_irrelevant_lookup', 'AGV.Project.order_irrelevant_failure', 'AGV.Project.error_order_dependent_counterexample', 'AGV.Project.duplicate_util_last_wins', 'AGV.Project.util_order_dependent_counterexample', 'AGV.Project.util_order_irrelevant_partial']
+ENTRY["units"] += ["project"]
+ENTRY["trusted_base"] += ["project slice (Model/Project, unit project) - modelled, not verified: find_config_path_with_default, ProjectConfig::{discover_project, setup, find_rules}, build_util_walker, find_util_rules, read_directory_yaml, read_rule_file, config_file_type, into_map (last document of an id wins), ScanArg's clap conflicts, ScanWithConfig::try_new (source of the rules), filter_rule_by_regex, ErrorContext::exit_code for the loading errors; parameters: read_to_string (UTF-8), serde_yaml on sgconfig.yml, from_yaml_string and parse_global_utils (Model/Loader, Model/GlobalLoader), the verdict of ignore files, the --filter regex; the file system is a tree whose child lists are in readdir order (the harness reads the temp project back with std::fs::read_dir); the serial walker of the `ignore` crate is modelled from its observed behaviour (root never filtered, hidden directories pruned, type whitelist *.yml/*.yaml beats the hidden-file rule, readdir order, depth first); path resolution of --config / -r / the current directory, symbolic links, I/O errors inside a walk, customLanguages / languageGlobs / languageInjections registration are outside the model"]
+MANIFEST["text"] += ' Project slice (Props/Project, unit project): the rule files of a project are collected in readdir order, which the code does not sort — walk_perm / order_irrelevant / order_irrelevant_lookup / order_irrelevant_failure (for every re-ordering of the children of every directory below a rule directory, Shuf, which contains every permutation by shuf_of_perm: the walk yields a permutation of the same files, the load succeeds or fails alike, the loaded documents are a permutation, so set, multiplicities and every id-keyed selection agree); what does depend on the order: error_order_dependent_counterexample (with two broken files the reported error, its path and the exit status 5 vs 8 are those of the file listed first), duplicate_util_last_wins + util_order_dependent_counterexample (two utilDirs files declaring one id: the one listed last wins — known finding, reproduced on the real CLI by the oracle project-shuffle), util_order_irrelevant_partial (no two utility files share an id: every look-up in the map handed to parse_global_utils is order independent).'
